@@ -604,6 +604,21 @@ def scripts(seed, n):
     return out
 
 
+_GENS = {}
+
+
+def gen_script(rng, i=None):
+    """same shape as apigen5.gen_script: -> (family, ops); the generator state is derived from `rng`"""
+    key = id(rng)
+    if key not in _GENS:
+        g = Gen(rng.randrange(1 << 30))
+        _GENS.clear()
+        _GENS[key] = g
+    g = _GENS[key]
+    fam, fn, _ = g.rng.choices(FAMILIES, [w for _, _, w in FAMILIES])[0]
+    return fam, getattr(g, fn)()
+
+
 def selfcheck():
     """the hand-built frames decode to what the builders intend; the set-order rule agrees with CPython"""
     import itertools
